@@ -57,6 +57,11 @@ type caseSpec struct {
 	// TaskDeferUS: delay (µs) at hook point modules.task.defer (0 = hook idle).
 	TaskDeferUS int `json:"task_defer_us,omitempty"`
 
+	// Via (API part): how the panicking request reaches the main handler: "direct"
+	// (VerifMainHandler().ServeHTTP), "server" (the real listening HTTP server) or
+	// "bridge" (database interface api: -> callAPI).
+	Via string `json:"via,omitempty"`
+
 	// API part.
 	Method  string `json:"method,omitempty"`  // GET | POST
 	DevMode bool   `json:"devmode,omitempty"` // core/devMode on: 500 body carries value + stack
@@ -123,12 +128,17 @@ var (
 	apiKinds  = []string{
 		"api-action", "api-data", "api-struct", "api-record", "api-handlerfunc",
 		"api-raw-wrapped", "api-raw-plain",
+		// RecordFunc handing out a shared record whose marshalling panics
+		"api-record-marshal",
 	}
 	// the value classes the property's quantifier names ...
 	coreValues = []string{"nil", "error", "string", "rt-index", "rt-nilmap", "rt-nilderef", "struct", "pointer"}
 	// ... and hostile extras ("arbitrary" values): an error that could steer control
 	// flow if it were unwrapped, an uncomparable value, values whose formatting panics.
 	extraValues = []string{"error-canceled", "slice", "bad-error", "nil-typed-error", "int"}
+
+	// ... and sentinel error values that recovery code might single out.
+	sentinelValues = []string{"http-abort", "http-abort-wrapped", "http-server-closed", "restart-now", "ctx-deadline", "io-eof"}
 
 	healthyKinds = []string{"worker", "serviceworker", "mt-high", "mt-med", "mt-low", "task", "hook"}
 )
